@@ -124,6 +124,11 @@ def _item_append():
     return z3.Function('item_append', ITEM.sort(), TBytes.sort(), ITEM.sort())
 
 
+def _last_bstr():
+    # the last item of a list of CBOR items when it is a byte string (None when it is anything else)
+    return z3.Function('item_last_bstr', ITEM.sort(), TOpt(TBytes).sort())
+
+
 def crc_expected_rx(eng, blk, rx):
     '''the CRC field value of a block that was received as the items rx: over those items, the last one (the CRC field)
     replaced by a zeroed one'''
@@ -144,9 +149,12 @@ def sb_crc_ok(eng, blk):
     rxv = rx.t.val(rx.z)
     built = z3.If(ct == 0, crc.t.is_none(crc.z),
                   z3.And(z3.Not(crc.t.is_none(crc.z)), crc.t.val(crc.z) == crc_expected(eng, blk)))
+    ob = TOpt(TBytes)
+    last = _last_bstr()(rxv)
+    # (the CRC item is compared as it was received: the one item the CRC does not cover)
     decoded = z3.And(_item_count()(rxv) == _item_count()(item_of(eng, blk)),
                      z3.If(ct == 0, crc.t.is_none(crc.z),
-                           z3.And(z3.Not(crc.t.is_none(crc.z)), crc.t.val(crc.z) == crc_expected_rx(eng, blk, rxv))))
+                           z3.And(z3.Not(ob.is_none(last)), ob.val(last) == crc_expected_rx(eng, blk, rxv))))
     return mk_bool(z3.If(rx.t.is_none(rx.z), built, decoded))
 
 
@@ -246,6 +254,9 @@ def cb_any_op(eng, op, args):
         return n
     if op == 'slice' and args[1] is None and args[2] == -1:
         return V(ITEM, _but_last()(args[0].z))
+    if op == 'index' and args[1] == -1:
+        # (an item that is not a byte string never equals one: Opt[Bytes] None stands for "anything else")
+        return V(TOpt(TBytes), _last_bstr()(args[0].z))
     if op == 'add':
         from pyvc import lists as L
         from pyvc.types import TList
